@@ -498,3 +498,13 @@ func (w *World) ForgetUser(userID string) {
 	delete(w.users, userID)
 	w.mu.Unlock()
 }
+
+// PutSP registers an already constructed service provider.
+func (w *World) PutSP(sp interface{ GetEntityID() string }, appID string) {
+	w.mu.Lock()
+	if s, ok := sp.(*serviceprovider.ServiceProvider); ok {
+		w.sps[s.GetEntityID()] = s
+		w.apps[appID] = s.GetEntityID()
+	}
+	w.mu.Unlock()
+}
